@@ -102,6 +102,27 @@ def lazy_plus_token(n: int, c0: int, c1: int, c2: int, q: int, p: int, two_liter
     return fin(new_value == exp and len(args) == 2)
 
 
+def use_generator_parses(fsel: int, extra: int, trailing_comma: bool, multiline: bool) -> bool:
+    """UseGenerator.leave_Call over a symbolic call shape (builtin, trailing comma after the comprehension, one-line
+    or multi-line layout, optional second argument): the rewritten call is valid Python.
+    pre: 0 <= extra <= 3
+    post: _
+    """
+    from harness import ugen
+
+    call = ugen.build_call(fsel, extra, trailing_comma, multiline)
+    try:
+        ast.parse(ugen.code(call), mode="eval")
+    except SyntaxError:
+        return fin(True)
+    new, _ = ugen.rewrite(call)
+    try:
+        ast.parse(ugen.code(new), mode="eval")
+    except SyntaxError:
+        return False
+    return fin(True)
+
+
 def e2_programs_parse(tier_name):
     return driver.parse_only(tier_name)
 
@@ -125,7 +146,7 @@ SPEC = {
     "property": "C01",
     "level": "model_checking",
     "files": ["src/core_codemods/lazy_logging.py", "src/core_codemods/invert_boolean_check.py", "src/core_codemods/combine_calls_base.py"],
-    "functions": ["LazyLogging.make_args_for_plus / process_concat / is_str_concat", "the real pipelines of the three E2 codemods (output must parse)"],
+    "functions": ["LazyLogging.make_args_for_plus / process_concat / is_str_concat", "UseGenerator.leave_Call", "the real pipelines of the three E2 codemods (output must parse)"],
     "bounds": {
         "quick": "literal content <= 2 characters over {a, double quote, single quote, backslash, newline, %, {, space}; 4 quote styles x 5 prefixes; one or two literal pieces; E2 quick grammar",
         "thorough": "content <= 3 characters; E2 thorough grammar",
@@ -140,6 +161,7 @@ SPEC = {
     "drivers": [e2_programs_parse],
     "xh": [
         Xh("lazy_plus_token", 400, 1500),
+        Xh("use_generator_parses", 150, 300),
         Xh("planted_token", 60, 120, twin=False, expect="refuted"),
     ],
 }
